@@ -4,7 +4,7 @@ from common import S, Sempty, Stext, Q, M, sc_py
 
 STR_KEYS = ['a', 'b', 'c', 'k', 'x', '_u', 'a', 'b', 'c', 'k', 'x', 'stages', 'x.y', 'my-key']
 INT_KEYS = [0, 1, 2, -1, 3]
-SCALARS = [0, 1, 2, 7, -3, 'p', 'q', '', 'hello world', True, False, None, 1.5, 0.0]
+SCALARS = [0, 1, 2, 7, -3, 'p', 'q', '', 'hello world', True, False, None, 1.5, 0.0, 'p', 'q', 1, "f'{b}'", 'true', '12']
 
 class Vocab:
     """which tag families a generator may use"""
